@@ -24,10 +24,15 @@ def load_findings(pid):
     return [e for e in allf if e.get('property') == pid and e.get('status') == 'known']
 
 
+CURRENT = None      # the Run of this process (bin/check uses it when a harness error follows recorded violations)
+
+
 class Run:
     """One invocation of one check."""
 
     def __init__(self, pid, level, tier=None):
+        global CURRENT
+        CURRENT = self
         self.pid = pid
         self.level = level
         self.tier = os.environ.get('VERIF_TIER') or tier or 'quick'
